@@ -22,6 +22,7 @@ def cmd_check(args):
         print("HARNESS-ERROR: Python >= 3.12 required (sys.monitoring step clock)")
         return 2
     core.import_parglare()
+    core.sweep_stale_scratch()
     mod = _module(prop)
     t0 = time.monotonic()
     print(f"# pgsim property={prop} tier={tier} VERIF_SEED={vseed} "
